@@ -57,6 +57,20 @@ theorem c03_distance (f : R →+* R) (hf : ∀ x, f (f x) = x) {ds : List ℕ} (
   refine Finset.sum_congr rfl fun c _ => ?_
   rw [map_mul, hf, map_sub]; ring
 
+/-- Hermitian symmetry of the inner product: `⟨b|a⟩ = conj ⟨a|b⟩` (what `distance` relies on when it
+    subtracts `l1dotl2.conjugate()` instead of contracting a fourth time) -/
+theorem c03_inner_symm (f : R →+* R) (hf : ∀ x, f (f x) = x) {ds : List ℕ} (a b : Chain R ds 1 1) :
+    dotFrom (1 : Matrix (Fin 1) (Fin 1) R) (mapC f b) a 0 0
+      = f (dotFrom (1 : Matrix (Fin 1) (Fin 1) R) (mapC f a) b 0 0) := by
+  rw [c03_inner, c03_inner, map_sum]
+  refine Finset.sum_congr rfl fun c _ => ?_
+  rw [map_mul, hf, mul_comm]
+
+/-- squared norm: `⟨a|a⟩ = Σ_c conj(a_c)·a_c` -/
+theorem c03_norm_sq (f : R →+* R) {ds : List ℕ} (a : Chain R ds 1 1) :
+    dotFrom (1 : Matrix (Fin 1) (Fin 1) R) (mapC f a) a 0 0 = ∑ c : Cfg ds, f (amp a c 0 0) * amp a c 0 0 :=
+  c03_inner f a a
+
 /-- arithmetic followed by any canonicalisation / lossless compression is still correct -/
 theorem c03_add_then_regauge {d : ℕ} {ds : List ℕ} (a b : Chain R (d :: ds) 1 1) (x : Chain R (d :: ds) 1 1)
     (h : Steps (addClosed a b) x) (c : Cfg (d :: ds)) : amp x c = amp a c + amp b c := by
